@@ -27,6 +27,10 @@ func init() {
 				c.addAll(keep(a.RDefined(), func(o report.Obligation) bool { return keyHasFunc(o, roots) }))
 				c.addAll(keep(a.RAlias(), func(o report.Obligation) bool { return keyHasFunc(o, roots) }))
 				c.addAll(keep(a.RReadOnly(), func(o report.Obligation) bool { return keyHasFunc(o, roots) }))
+				// value clauses
+				c.ruleLookupTables(cfg)
+				c.ruleScalarMultLoops(cfg)
+				c.ruleRadix16(cfg)
 			}
 		},
 	})
